@@ -89,14 +89,29 @@ def lab_c(l):
     return np.nan if l == -1 else float(l)
 
 
+# how the abstract weights {1, 2} are presented (set per replay): plain = 1.0 / 2.0 as floats; fractional = 1 / 2.5,
+# a weight vector of ones being handed over with an INTEGER dtype (stored integer weights followed by fractional
+# ones: the weight vector must be promoted, never truncated)
+WVAL = {1: 1.0, 2: 2.0}
+FRACTIONAL = {1: 1.0, 2: 2.5}
+PLAIN = {1: 1.0, 2: 2.0}
+
+
+def conc_w(ws):
+    """abstract weights -> concrete list (ints for all-ones vectors in the fractional presentation)"""
+    if WVAL is FRACTIONAL and all(v == 1 for v in ws):
+        return [1 for _ in ws]
+    return [float(WVAL[v]) for v in ws]
+
+
 def conc_args(a, as_array):
     idx = [i - 1 for i in a["I"]]
     y = None if not a["Y"] else [lab_c(v) for v in a["Y"]]
-    w = None if not a["W"] else [float(v) for v in a["W"]]
+    w = None if not a["W"] else conc_w(a["W"])
     if as_array:
         idx = np.array(idx, dtype=int)
         y = None if y is None else np.array(y, dtype=float)
-        w = None if w is None else np.array(w, dtype=float)
+        w = None if w is None else np.array(w)
     return idx, y, w
 
 
@@ -119,9 +134,10 @@ def triples_of(idx, y, sw):
             if sw is None:
                 wt = 0
             else:
-                wt = int(sw[k])
-                if float(wt) != float(sw[k]) or wt <= 0:
+                wt = [k_ for k_, v_ in WVAL.items() if float(v_) == float(sw[k])]
+                if not wt:
                     return None
+                wt = wt[0]
             out.append([int(idx[k]) + 1, lbl, wt])
         return out
     except Exception:
@@ -212,7 +228,7 @@ def fit_reference(variant, X, post):
         pos += ln
         idx = [t[0] - 1 for t in part]
         y = np.array([lab_c(t[1]) for t in part], dtype=float)
-        w = None if all(t[2] == 0 for t in part) else np.array([float(t[2]) for t in part])
+        w = None if all(t[2] == 0 for t in part) else np.array([float(WVAL.get(t[2], 0.0)) for t in part])
         if s == 0:
             ref.fit(X[idx], y, w)
         elif w is None:
@@ -227,13 +243,13 @@ def build_wrapper(cfg, variant, X, su, wlist=False):
     from skactiveml.pool.utils import IndexClassifierWrapper
 
     y0 = np.array([lab_c(v) for v in cfg["initY"]], dtype=float)
-    w0 = None if not cfg["initW"] else np.array([float(v) for v in cfg["initW"]], dtype=float)
+    w0 = None if not cfg["initW"] else np.array(conc_w(cfg["initW"]))
     clf = make_clf(variant)
     if cfg["prefit"] != "none":
         pre = [i - 1 for i in cfg["preI"]]
         clf.fit(X[pre], y0[pre], None if w0 is None else w0[pre])
     if wlist and w0 is not None:      # "array-like": the stored weights handed over as a python list
-        w0 = [float(v) for v in w0]
+        w0 = w0.tolist()
     return IndexClassifierWrapper(clf, X, y0, sample_weight=w0, set_base_clf=(cfg["prefit"] == "fitbase"),
                                   ignore_partial_fit=cfg["ipf"], enforce_unique_samples=cfg["eu"],
                                   use_speed_up=su)
@@ -272,8 +288,10 @@ def init_post(cfg):
 
 def replay(arg):
     """worker: one behaviour x one classifier variant -> list of traces"""
+    global WVAL
     beh, variant, geom, xseed, tag, corrupt = arg[:6]
     wlist = len(arg) > 6 and arg[6]
+    WVAL = FRACTIONAL if xseed % 3 == 2 else PLAIN
     warnings.filterwarnings("ignore")
     cfg = beh["cfg"]
     n = cfg["n"]
@@ -348,6 +366,8 @@ def replay(arg):
                            "prefit": c["prefit"], "args_as": "ndarray" if as_array else "list",
                            "stored_labels": c["initY"], "stored_weights": c["initW"],
                            "stored_weights_as": "list" if wlist else "ndarray",
+                           "weight_values": {str(k): v for k, v in WVAL.items()},
+                           "all_ones_weight_vectors_as_integers": WVAL is FRACTIONAL,
                            "calls": [h["op"] for h in beh["hist"]], "zero_based": "indices in calls are 1-based"}}
         traces.append(tr)
     return traces, n_eval
